@@ -1003,8 +1003,9 @@ impl FromStr for Duration {
             .parse()
             .map_err(|e| TemporalError::range().with_message(format!("{e}")))?;
 
-        // A duration string designates at least one component: "P" alone is not a duration.
-        if parse_record.date.is_none() && parse_record.time.is_none() {
+        // A duration string designates at least one component: "P" alone is not a duration
+        // (the parser returns an all-zero date record for it).
+        if s.trim_start_matches(['+', '-', '\u{2212}']).len() == 1 {
             return Err(TemporalError::range().with_message("Duration string has no components."));
         }
 
